@@ -404,6 +404,15 @@ def type_defaults(src, tree):
     body = T.body_nodoc(fn)
     if not (len(body) == 2 and isinstance(body[0], ast.If)):
         T.fail(ATTR, fn, "Type.default_value is not `if n==1: <table>; return Vec([..]*n)`")
+    nparam = fn.args.args[1].arg
+    scalar_test = bexp(ATTR, body[0].test, {nparam: "n"})
+    r = body[1]
+    ok = (isinstance(r, ast.Return) and isinstance(r.value, ast.Call) and T.dotted(r.value.func) == "Vec" and len(r.value.args) == 1
+          and isinstance(r.value.args[0], ast.BinOp) and isinstance(r.value.args[0].op, ast.Mult)
+          and isinstance(r.value.args[0].left, ast.List) and len(r.value.args[0].left.elts) == 1
+          and T.dotted(r.value.args[0].right) == nparam)
+    if not ok:
+        T.fail(ATTR, fn, "the vector default is not Vec([self.default_value(1)]*n)")
     table = {}
     for st in body[0].body:
         if isinstance(st, ast.Raise):
@@ -444,7 +453,8 @@ def type_defaults(src, tree):
             T.fail(ATTR, v, "default of unknown kind")
     if sorted(table) != sorted(TYN.values()):
         T.fail(ATTR, fn, "default table does not cover the five types")
-    text = "Definition type_default (t : ty) : comp :=\n  match t with\n" + "".join(
+    text = "Definition default_is_scalar (n : Z) : bool := %s.\n" % scalar_test
+    text += "Definition type_default (t : ty) : comp :=\n  match t with\n" + "".join(
         "  | %s => %s\n" % (t, table[t]) for t in ("TBool", "TInt", "TFloat", "TComplex", "TString")) + "  end.\n"
     # _check_default_value_type
     fn2 = T.find_def(tree, "_BaseAttribute._check_default_value_type", ATTR)
